@@ -597,4 +597,194 @@ theorem run_stacking (beh : Beh) (id : Nat) (ms ts : List Nat) : ∀ (ops : List
     | tFit _ _ _ _ => simp [isStackOpOn] at hop
     | tTransform _ _ => simp [isStackOpOn] at hop
 
+/-! ### learners under arbitrary operations -/
+
+/-- a store operation that only ever rewrites model records, writes transfer objects in place and allocates:
+learner objects are never touched, well-formedness is kept -/
+def KeepsLearners (st st' : Store) : Prop :=
+  (st.WF → st'.WF) ∧ st.next ≤ st'.next ∧
+  ∀ id m meth b, st.get id = some (.learner m meth b) → id < st.next → st'.get id = some (.learner m meth b)
+
+theorem keeps_refl (st : Store) : KeepsLearners st st := ⟨id, Nat.le_refl _, fun _ _ _ _ h _ => h⟩
+
+theorem keeps_trans {a b c : Store} (h1 : KeepsLearners a b) (h2 : KeepsLearners b c) : KeepsLearners a c :=
+  ⟨fun h => h2.1 (h1.1 h), Nat.le_trans h1.2.1 h2.2.1,
+   fun id m meth bb hg hlt => h2.2.2 id m meth bb (h1.2.2 id m meth bb hg hlt) (Nat.lt_of_lt_of_le hlt h1.2.1)⟩
+
+theorem fitModel_keeps (st st' : Store) (t : Nat) (c : FitCall) (h : fitModel st t c = .ok st') : KeepsLearners st st' := by
+  obtain ⟨r, g0, g1, gfr, gnx⟩ := fitModel_spec st st' t c h
+  refine ⟨?_, by omega, ?_⟩
+  · intro hw j o hj
+    rw [gnx]
+    by_cases e : j = t
+    · subst e; exact hw _ _ g0
+    · rw [gfr _ e] at hj; exact hw _ _ hj
+  · intro id m meth b hg _
+    rw [gfr]; exact hg
+    intro e; subst e; rw [hg] at g0; cases g0
+
+theorem learnerFit_keeps (st st' : Store) (j : Nat) (X : Mat) (y : Option Vec) (kw : List (String × Vec))
+    (h : learnerFit st j X y kw = .ok st') : KeepsLearners st st' := by
+  unfold learnerFit at h
+  cases hj : st.get j with
+  | none => simp [hj] at h
+  | some o =>
+    cases o with
+    | learner mj methj bj => simp only [hj] at h; exact fitModel_keeps _ _ _ _ h
+    | model _ => simp [hj] at h
+    | stacking _ => simp [hj] at h
+    | transfer _ _ _ _ _ => simp [hj] at h
+
+theorem memberFit_keeps (st st' : Store) (j : Nat) (X : Mat) (y : Option Vec) (kw : List (String × Vec))
+    (h : memberFit st j X y kw = .ok st') : KeepsLearners st st' := by
+  unfold memberFit at h
+  cases hj : st.get j with
+  | none => simp [hj] at h
+  | some o =>
+    cases o with
+    | learner _ _ _ => simp only [hj] at h; exact learnerFit_keeps _ _ _ _ _ _ h
+    | model _ => simp only [hj] at h; exact fitModel_keeps _ _ _ _ h
+    | stacking _ => simp [hj] at h
+    | transfer _ _ _ _ _ => simp [hj] at h
+
+theorem foldFit_keeps (X : Mat) (y : Option Vec) (kw : List (String × Vec)) :
+    ∀ (ms : List Nat) (st st' : Store), ms.foldlM (fun s m => memberFit s m X y kw) st = .ok st' → KeepsLearners st st' := by
+  intro ms
+  induction ms with
+  | nil => intro st st' h; simp [List.foldlM, pure, Except.pure] at h; subst h; exact keeps_refl _
+  | cons m rest ih =>
+    intro st st' h
+    simp only [List.foldlM, bind, Except.bind] at h
+    cases h1 : memberFit st m X y kw with
+    | error e => simp [h1] at h
+    | ok st1 =>
+      simp only [h1] at h
+      exact keeps_trans (memberFit_keeps _ _ _ _ _ _ h1) (ih st1 st' h)
+
+theorem put_keeps (st : Store) (j : Nat) (o : Obj) (hj : j < st.next) (hnl : ∀ m meth b, st.get j ≠ some (.learner m meth b)) :
+    KeepsLearners st (st.put j o) := by
+  refine ⟨fun hw => wf_put _ _ _ hw hj, Nat.le_refl _, ?_⟩
+  intro id m meth b hg _
+  rw [get_put_ne]; exact hg
+  intro e; subst e; exact hnl m meth b hg
+
+theorem alloc_keeps (st : Store) (o : Obj) : KeepsLearners st (st.alloc o).1 := by
+  refine ⟨fun hw => wf_alloc _ _ hw, by rw [alloc_next]; omega, ?_⟩
+  intro id m meth b hg hlt
+  rw [get_alloc_old _ _ _ (by omega)]; exact hg
+
+theorem transferFit_keeps (st st' : Store) (j : Nat) (X : Mat) (y w : Option Vec) (hw : st.WF)
+    (h : transferFit st j X y w = .ok st') : KeepsLearners st st' := by
+  have hg : transferTrainableGuard = true := rfl
+  have hcb : transferCopyBranch = true := rfl
+  unfold transferFit at h
+  cases hj : st.get j with
+  | none => simp [hj] at h
+  | some o =>
+    cases o with
+    | model _ => simp [hj] at h
+    | learner _ _ _ => simp [hj] at h
+    | stacking _ => simp [hj] at h
+    | transfer est meth cp tr f =>
+      simp only [hj, hg, hcb, Bool.and_true, Bool.not_true, Bool.or_false, bind, Except.bind] at h
+      have hjlt : j < st.next := hw _ _ hj
+      -- the part after the target is known
+      have tail : ∀ (st1 : Store) (target : Nat), KeepsLearners st st1 → st1.get j = st.get j →
+          (if tr = true then
+              match (st1.put j (.transfer est meth cp tr (some target))).get target with
+              | some (.model r) => fitModel (st1.put j (.transfer est meth cp tr (some target))) target (transferFitCall r X y w)
+              | _ => .error .missing
+            else .ok (st1.put j (.transfer est meth cp tr (some target)))) = .ok st' → KeepsLearners st st' := by
+        intro st1 target k1 hsame h2
+        have k2 : KeepsLearners st1 (st1.put j (.transfer est meth cp tr (some target))) :=
+          put_keeps _ _ _ (Nat.lt_of_lt_of_le hjlt k1.2.1) (by intro m me b; rw [hsame, hj]; simp)
+        split at h2
+        · cases hgt : (st1.put j (.transfer est meth cp tr (some target))).get target with
+          | none => simp [hgt] at h2
+          | some ot =>
+            cases ot with
+            | model r =>
+              simp only [hgt] at h2
+              exact keeps_trans k1 (keeps_trans k2 (fitModel_keeps _ _ _ _ h2))
+            | learner _ _ _ => simp [hgt] at h2
+            | stacking _ => simp [hgt] at h2
+            | transfer _ _ _ _ _ => simp [hgt] at h2
+        · simp only [Except.ok.injEq] at h2
+          subst h2
+          exact keeps_trans k1 k2
+      cases cp with
+      | true =>
+        simp only [↓reduceIte, deepCopy] at h
+        cases he : st.get est with
+        | none => simp [he] at h
+        | some oe =>
+          cases oe with
+          | model r =>
+            simp only [he] at h
+            exact tail (st.alloc (.model r)).1 st.next (alloc_keeps _ _) (get_alloc_old _ _ _ (by omega)) h
+          | learner _ _ _ => simp [he] at h
+          | stacking _ => simp [he] at h
+          | transfer _ _ _ _ _ => simp [he] at h
+      | false =>
+        simp only [Bool.false_eq_true, ↓reduceIte] at h
+        exact tail st est (keeps_refl _) rfl h
+
+/-- the invariant of a learner under *every* operation on *any* object of the store -/
+def LearnerBoundWF (st : Store) (id : Nat) : Prop := st.WF ∧ LearnerBound st id
+
+theorem step_learnerBound_all (beh : Beh) (st : Store) (op : Op) (id : Nat) (h : LearnerBoundWF st id) :
+    LearnerBoundWF (step beh st op).1 id := by
+  obtain ⟨hw, m, meth, hid⟩ := h
+  have hidlt : id < st.next := hw _ _ hid
+  have keep : ∀ st', KeepsLearners st st' → LearnerBoundWF st' id :=
+    fun st' k => ⟨k.1 hw, m, meth, k.2.2 id m meth m hid hidlt⟩
+  cases op with
+  | lFit j X y kw =>
+    simp only [step]
+    cases hf : learnerFit st j X y kw with
+    | error e => exact ⟨hw, m, meth, hid⟩
+    | ok st' => exact keep st' (learnerFit_keeps _ _ _ _ _ _ hf)
+  | lTransform j X => exact ⟨hw, m, meth, hid⟩
+  | lSetModel j new =>
+    have hb := step_learnerBound beh st (.lSetModel j new) id rfl ⟨m, meth, hid⟩
+    refine ⟨?_, hb⟩
+    simp only [step, learnerSetModel]
+    cases hj : st.get j with
+    | none => exact hw
+    | some o =>
+      cases o with
+      | learner mj methj bj => exact wf_put _ _ _ hw (hw _ _ hj)
+      | model _ => exact hw
+      | stacking _ => exact hw
+      | transfer _ _ _ _ _ => exact hw
+  | sFit j X y kw =>
+    simp only [step]
+    cases hf : stackingFit st j X y kw with
+    | error e => exact ⟨hw, m, meth, hid⟩
+    | ok st' =>
+      apply keep
+      unfold stackingFit at hf
+      cases hj : st.get j with
+      | none => simp [hj] at hf
+      | some o =>
+        cases o with
+        | stacking ms => simp only [hj] at hf; exact foldFit_keeps X y kw ms st st' hf
+        | model _ => simp [hj] at hf
+        | learner _ _ _ => simp [hj] at hf
+        | transfer _ _ _ _ _ => simp [hj] at hf
+  | sTransform j X => exact ⟨hw, m, meth, hid⟩
+  | tFit j X y w =>
+    simp only [step]
+    cases hf : transferFit st j X y w with
+    | error e => exact ⟨hw, m, meth, hid⟩
+    | ok st' => exact keep st' (transferFit_keeps _ _ _ _ _ _ hw hf)
+  | tTransform j X => exact ⟨hw, m, meth, hid⟩
+
+theorem run_learnerBound_all (beh : Beh) : ∀ (ops : List Op) (st : Store) (id : Nat),
+    LearnerBoundWF st id → LearnerBoundWF (run beh st ops).1 id := by
+  intro ops
+  induction ops with
+  | nil => intro st id h; exact h
+  | cons op rest ih => intro st id h; exact ih _ id (step_learnerBound_all beh st op id h)
+
 end MlVerif.Wrappers
